@@ -69,6 +69,8 @@ struct Shared {
   WorkerSlot w[MAX_WORKERS];
 };
 
+struct ChildEnd { std::string status, cls, sig, detail; uint64_t hash = 0; };
+
 struct RunCtx {
   WorkerSlot *slot = nullptr;
   std::map<std::string, int> cmap;
@@ -100,6 +102,8 @@ struct Harness {
   virtual Outcome execute(const Json &plan, RunCtx &ctx) = 0;
   virtual std::vector<Json> simplify(const Json &plan) { (void) plan; return {}; }
   virtual void worker_init() {}                                       // once per worker process
+  // called in the supervisor after a run died: may reclassify the death (e.g. as a side finding outside the property)
+  virtual void reclassify(const Json &plan, struct ChildEnd &e) { (void) plan; (void) e; }
   virtual int hang_seconds() { return 20; }
 };
 
@@ -145,7 +149,6 @@ static inline uint64_t plan_hash(const Json &plan) {
 }
 
 // Decode the way a child ended into (status, class, sig, detail)
-struct ChildEnd { std::string status, cls, sig, detail; uint64_t hash = 0; };
 static inline ChildEnd classify_death(int st, const char *note, bool hang) {
   ChildEnd e;
   if (hang) { e.status = "hang"; e.cls = "hang"; e.sig = "watchdog"; e.detail = note; return e; }
@@ -165,7 +168,7 @@ static inline ChildEnd classify_death(int st, const char *note, bool hang) {
 }
 
 // Execute a plan in a forked child (isolation against crashes); returns how it ended.
-static inline ChildEnd run_isolated(Harness &h, const Json &plan, int timeout_s) {
+static inline ChildEnd run_isolated(Harness &h, const Json &plan, int timeout_s, bool reclass = true) {
   static Shared *sh = nullptr;
   if (!sh) sh = (Shared *) mmap(nullptr, sizeof(Shared), PROT_READ | PROT_WRITE, MAP_SHARED | MAP_ANONYMOUS, -1, 0);
   WorkerSlot *slot = &sh->w[0];
@@ -208,6 +211,7 @@ static inline ChildEnd run_isolated(Harness &h, const Json &plan, int timeout_s)
     return e;
   }
   ChildEnd ce = classify_death(st, (const char *) slot->note, hang);
+  if (reclass && ce.cls.compare(0, 5, "side_") != 0) h.reclassify(plan, ce);
   if (ce.cls.compare(0, 5, "side_") == 0) ce.status = "ok";
   return ce;
 }
@@ -289,6 +293,7 @@ static inline int mode_run(Harness &h, uint64_t seed, int64_t count, int jobs, c
       // died during a run (or between runs: attribute to infra)
       crashes++;
       ChildEnd e = classify_death(st, (const char *) sh->w[w].note, hang);
+      if (sh->w[w].inflight >= 0 && e.cls.compare(0, 5, "side_") != 0) { Json pl = make_plan(h, seed, sh->w[w].inflight, cfg); h.reclassify(pl, e); }
       if (e.cls.compare(0, 5, "side_") == 0) {  // outside the property under test: counted, never a verdict
         side[e.cls + "/" + e.sig]++; sh->w[w].inflight = -1; sh->w[w].done++;
         if (sh->next_index < count && !sh->stop) spawn(w); else alive--;
